@@ -234,6 +234,32 @@ func (r *c05Ranger) Range() (reflect.Value, reflect.Value, bool) {
 }
 func (r *c05Ranger) ProvidesIndex() bool { return r.index }
 
+// c05ChanRanger and c05MapRanger are custom Rangers whose underlying kinds (chan, map) are
+// ones jet can range over natively: their own Range must still be the one used.
+type c05ChanRanger chan string
+
+func (c c05ChanRanger) Range() (reflect.Value, reflect.Value, bool) {
+	v, ok := <-c
+	if !ok {
+		return reflect.Value{}, reflect.Value{}, true
+	}
+	return reflect.Value{}, reflect.ValueOf("R" + v), false
+}
+func (c c05ChanRanger) ProvidesIndex() bool { return false }
+
+type c05MapRanger map[string]*int
+
+func (m c05MapRanger) Range() (reflect.Value, reflect.Value, bool) {
+	p := m["pos"]
+	if *p >= *m["n"] {
+		return reflect.Value{}, reflect.Value{}, true
+	}
+	k, v := reflect.ValueOf("k"+ndItoa(*p)), reflect.ValueOf("v"+ndItoa(*p))
+	*p++
+	return k, v, false
+}
+func (m c05MapRanger) ProvidesIndex() bool { return true }
+
 // H_C05_rangeForms: the nine range forms (no variable, one, two; := and =; '_' in either
 // position of the two-variable forms) over each kind
 // of rangeable value with a symbolic number n <= K of elements (K = 2 quick / 3 thorough):
@@ -259,7 +285,7 @@ func H_C05_rangeForms() {
 		`{{ v = S2 }}{{ range _, v = S }}(_={{ v }};{{ . }}){{ else }}E{{ end }}`,
 		`{{ k = S2 }}{{ range k, _ = S }}({{ k }}=_;{{ . }}){{ else }}E{{ end }}`,
 	}
-	kinds := []string{"slice", "array", "ifaceSlice", "chan", "ranger", "rangerNoIndex", "ptrSlice", "map", "nilSlice", "nilMap", "emptyMap"}
+	kinds := []string{"slice", "array", "ifaceSlice", "chan", "ranger", "rangerNoIndex", "ptrSlice", "map", "nilSlice", "nilMap", "emptyMap", "chanRanger", "mapRanger"}
 	f := ndChoice("form", len(forms))
 	kd := ndChoice("subject", len(kinds))
 	n := ndChoice("n", K+1)
@@ -306,6 +332,21 @@ func H_C05_rangeForms() {
 		hasIndex = false
 	case "ptrSlice":
 		subj = &elems
+	case "chanRanger": // a Ranger by value whose kind is chan
+		ch := make(chan string, 4)
+		for i, e := range elems {
+			ch <- e
+			elems[i] = "R" + e
+		}
+		close(ch)
+		subj = c05ChanRanger(ch)
+		hasIndex = false
+	case "mapRanger": // a Ranger by value whose kind is map
+		pos, cnt := 0, n
+		subj = c05MapRanger{"pos": &pos, "n": &cnt}
+		for i := 0; i < n; i++ {
+			elems[i], keys[i] = "v"+ndItoa(i), "k"+ndItoa(i)
+		}
 	case "nilSlice": // a typed nil slice has no elements
 		vfAssume(n == 0)
 		var ns []string
